@@ -345,11 +345,12 @@ def r4_fitness_pressure(ctx):
 
 
 def iter_vals(interp, env, w):
-    if isinstance(w, Vec):
-        return [load(interp, env, x) for x in heap_get(interp, w.vid)]
-    if isinstance(w, It):
-        return [load(interp, env, x) for x in w.items]
-    return None
+    """the values an iterable argument yields (a vector, a slice, an eager or a lazy iterator chain)"""
+    from collmodel import iter_items
+    its = iter_items(interp, env, w)
+    if its is None:
+        return None
+    return [load(interp, env, x) for x in its]
 
 
 def run(ctx):
